@@ -260,6 +260,13 @@ func genGlue(fset *token.FileSet, repo, out string) {
 	var b strings.Builder
 	b.WriteString("import MoqModel.GlueIR\n/- REGENERATED from /repo by extract/ on every run – do not edit. -/\nnamespace Moq.Generated\nopen Moq.Glue\n\n")
 	emit := func(leanName string, f *ast.File, recv, name string) {
+		scope = "glue." + leanName
+		nbad := len(g.bad)
+		defer func() {
+			for _, m := range g.bad[nbad:] {
+				failf("glue: %s", m)
+			}
+		}()
 		fd := funcDecl(f, recv, name)
 		if fd == nil || fd.Body == nil {
 			failf("function %s.%s not found", recv, name)
@@ -285,9 +292,7 @@ func genGlue(fset *token.FileSet, repo, out string) {
 	emit("lookupProg", regGo, "Registry", "LookupInterface")
 	emit("registryNewProg", regGo, "", "New")
 	emit("parseNameProg", moqGo, "", "parseInterfaceName")
-	for _, m := range g.bad {
-		failf("glue: %s", m)
-	}
+	scope = "facts"
 
 	// whole-program facts over the non-test, non-example packages of moq itself
 	type site struct{ file, fn, call string }
